@@ -54,12 +54,18 @@ func buildFlavour(fl, binDir string) (string, error) {
 		args = append(args, "-tags", "verif", "-race")
 	case "noadx":
 		args = append(args, "-tags", "verif,noadx")
+	case "386":
+		// a 32-bit build: the portable (non-assembly) code of every package, 32-bit int and big.Word
+		args = append(args, "-tags", "verif")
 	default:
 		return "", fmt.Errorf("unknown flavour %s", fl)
 	}
 	args = append(args, "-o", out, "./cmd/vmon")
 	cmd := exec.Command("go", args...)
 	cmd.Dir = root()
+	if fl == "386" {
+		cmd.Env = append(os.Environ(), "GOARCH=386", "CGO_ENABLED=0")
+	}
 	b, err := cmd.CombinedOutput()
 	if err != nil {
 		return "", fmt.Errorf("go %s: %v\n%s", strings.Join(args, " "), err, b)
@@ -162,6 +168,9 @@ func childParams(spec checks.Child, cpus int) map[string]string {
 // abortAll is set once a child has hung inside a monitored call: the verdict is already "violated", so the
 // remaining children (which would each run into the same watchdog) are skipped or killed.
 var abortAll int32
+
+// hostNotes are remarks about the host that end up in the evidence's configuration list.
+var hostNotes []string
 
 // caseLimit is the bounded-progress limit of one case for the check being driven.
 var caseLimit time.Duration
@@ -432,6 +441,19 @@ func drive(id, tier string) int {
 			bins[ch.Flavour] = b
 		}
 	}
+	// the 32-bit flavour is an extra: where 32-bit binaries cannot be executed its children are left out (and said so)
+	if b, ok := bins["386"]; ok {
+		if err := exec.Command(b, "list").Run(); err != nil {
+			var kept []checks.Child
+			for _, ch := range plan {
+				if ch.Flavour != "386" {
+					kept = append(kept, ch)
+				}
+			}
+			plan = kept
+			hostNotes = append(hostNotes, "flavour=386 children left out: 32-bit binaries cannot be executed on this host ("+err.Error()+")")
+		}
+	}
 
 	alloc := newAlloc()
 	runs := make([]*childRun, len(plan))
@@ -466,6 +488,7 @@ func drive(id, tier string) int {
 	var samples []interface{}
 	var evals, trivial, cases int64
 	var configs []string
+	configs = append(configs, hostNotes...)
 	digests := map[string]map[string][]string{} // case -> digest -> configs
 	races := 0
 	for _, r := range runs {
